@@ -211,13 +211,15 @@ def _r2(chk, repo, ci):
         recv = c.func.value
         iters = [(n_.target, n_.iter) for n_ in ast.walk(jf) if isinstance(n_, (ast.For, ast.comprehension))]
         over_all = False
+        # `self` and its shallow copies (same keys, same members): JointSamples(self) / dict(self) / self.copy() / copy(self)
+        same = {"self"} | {s_.targets[0].id for s_ in ast.walk(jf) if isinstance(s_, ast.Assign) and len(s_.targets) == 1 and isinstance(s_.targets[0], ast.Name)
+                           and _norm(s_.value) in ("JointSamples(self)", "dict(self)", "self.copy()", "copy(self)", "copy.copy(self)")}
         for tg, it in iters:
-            if _norm(it) == "self.items()" and isinstance(tg, ast.Tuple) and len(tg.elts) == 2 and path_of(recv) == path_of(tg.elts[1]):
+            if any(_norm(it) == f"{a_}.items()" for a_ in same) and isinstance(tg, ast.Tuple) and len(tg.elts) == 2 and path_of(recv) == path_of(tg.elts[1]):
                 over_all = True
-            if _norm(it) in ("self", "self.keys()") and isinstance(tg, ast.Name) and _norm(recv) == f"self[{tg.id}]":
+            if any(_norm(it) in (a_, f"{a_}.keys()", f"list({a_})", f"list({a_}.keys())") for a_ in same) and isinstance(tg, ast.Name) \
+                    and any(_norm(recv) == f"{a_}[{tg.id}]" for a_ in same):
                 over_all = True
-            if _norm(it) == "self.values()":
-                over_all = False
         built = any(isinstance(x, ast.Call) and call_name(x) == "JointSamples" for x in ast.walk(jf))
         ok = args_ok and over_all and built
     chk.add("C19-R2", f"{js.qual}.burnthin", ok, site(repo, jf), "same (Nb, Nt) applied to every member", "joint burnthin does not apply the same (Nb, Nt) to every member", jf)
